@@ -1,8 +1,9 @@
 (* Position resolver = Lua's binder (C05 C14 C12), part 0: vocabulary.
    - a mutual induction principle for exp / stat / block (lists of sub-terms as Forall), and its restriction to the
      core fragment of Spec/LuaScope.v (`frag_*`) plus the conditions `shp_*`: the list lengths that every parser
-     output satisfies (SIf: one block per condition; SLocal: one Loc per name) and NO function expression in the step
-     of a numeric for (this excludes class B5 program-wide: the traversal visits init, step, limit);
+     output satisfies (SIf: one block per condition; SLocal: one Loc per name).  The former condition "no function
+     expression in the step of a numeric for" (class B5 excluded program-wide) is gone: since
+     fixes/C05-for-step-order.diff the traversal visits init, limit, step in source order;
    - the SKELETON of the scope tree: a pure function of the AST (no state threading, no look-ups) that lists the
      scopes the traversal creates and the variables it adds, in creation order, with their INITIAL ReferExp;
    - `vstep` / `sstep`: what cgAssignStat's re-pointing may do to an entry between its creation and the end of the
@@ -146,7 +147,7 @@ with shp_stat (s : stat) {struct s} : bool :=
   | SIf es bs _ => Nat.eqb (length es) (length bs) && forallb shp_exp es && forallb shp_block bs
   | SWhile e b _ => shp_exp e && shp_block b
   | SRepeat b e _ => shp_block b && shp_exp e
-  | SForNum _ _ e1 e2 e3 b _ => negb (has_func e3) && shp_exp e1 && shp_exp e2 && shp_exp e3 && shp_block b
+  | SForNum _ _ e1 e2 e3 b _ => shp_exp e1 && shp_exp e2 && shp_exp e3 && shp_block b
   | SForIn _ _ es b _ => forallb shp_exp es && shp_block b
   | SAssign _ es _ => forallb shp_exp es
   | SLocal ns ls _ es _ => Nat.eqb (length ns) (length ls) && forallb shp_exp es
@@ -191,7 +192,7 @@ Section CoreInd.
                                     Forall Pe es -> Forall Pb bs -> Ps (SIf es bs l).
   Hypothesis C_while : forall e b l, core_e e -> core_b b -> Pe e -> Pb b -> Ps (SWhile e b l).
   Hypothesis C_repeat : forall b e l, core_b b -> core_e e -> Pb b -> Pe e -> Ps (SRepeat b e l).
-  Hypothesis C_fornum : forall n vl e1 e2 e3 b l, frag_name n = true -> has_func e3 = false ->
+  Hypothesis C_fornum : forall n vl e1 e2 e3 b l, frag_name n = true ->
                                                   core_e e1 -> core_e e2 -> core_e e3 -> core_b b ->
                                                   Pe e1 -> Pe e2 -> Pe e3 -> Pb b -> Ps (SForNum n vl e1 e2 e3 b l).
   Hypothesis C_forin : forall ns ls es b l, forallb frag_name ns = true -> Forall core_e es -> core_b b ->
@@ -269,7 +270,7 @@ Section CoreInd.
       destruct Hf, Hs. apply C_repeat; try apply IHe; try apply IHb; split; assumption.
     - intros n vl e1 e2 e3 b l IH1 IH2 IH3 IHb [Hf Hs]. cbn [frag_exp frag_stat frag_block shp_exp shp_stat shp_block forallb] in Hf, Hs.
       do 4 (apply andb_true_iff in Hf; destruct Hf as [Hf ?]).
-      do 4 (apply andb_true_iff in Hs; destruct Hs as [Hs ?]). apply negb_true_iff in Hs.
+      do 3 (apply andb_true_iff in Hs; destruct Hs as [Hs ?]).
       apply C_fornum; try apply IH1; try apply IH2; try apply IH3; try apply IHb; try split; assumption.
     - intros ns ls es b l IHes IHb [Hf Hs]. cbn [frag_exp frag_stat frag_block shp_exp shp_stat shp_block forallb] in Hf, Hs.
       apply andb_true_iff in Hf. destruct Hf as [Hf Hfb]. apply andb_true_iff in Hf. destruct Hf as [Hns Hfes].
@@ -347,7 +348,7 @@ with sk_stat (s : stat) {struct s} : list ventry * list scope :=
   | SRepeat b e l => ([], [Scope l (fst (sk_block b)) (snd (sk_block b) ++ sk_exp e)])
   | SForNum n vl e1 e2 e3 b l =>
     ([], [Scope l (fst (sk_block b) ++ [mkV n vl RNone false])
-                (sk_exp e1 ++ sk_exp e3 ++ sk_exp e2 ++ snd (sk_block b))])
+                (sk_exp e1 ++ sk_exp e2 ++ sk_exp e3 ++ snd (sk_block b))])
   | SForIn ns ls es b l =>
     ([], [Scope l (fst (sk_block b) ++ rev (plain_vars ns ls)) (flat_map sk_exp es ++ snd (sk_block b))])
   | SAssign _ es _ => ([], flat_map sk_exp es)
